@@ -116,6 +116,11 @@ M = {
    "                            && domain::matches_extensions(path.as_path().into(), &extensions)\n", "", 'C16'),
  'c16-unwrap-back': ('src/engine/watcher.rs',
    "        Some(file_name) => file_name.to_string_lossy(),", "        Some(file_name) => file_name.to_str().unwrap().to_string(),", 'C16'),
+ 'c18-state-path-from-cwd': ('src/engine/incremental/storage.rs',
+   "    work_dir::get_work_dir_path(&target.project_dir).join(format!(\"{}.checksums\", target))",
+   "    work_dir::get_work_dir_path(&std::env::current_dir().map(PathBuf::from).unwrap_or_else(|_| target.project_dir.clone())).join(format!(\"{}.checksums\", target))", 'C18'),
+ 'c18-no-canonicalize': ('src/config/yaml/mod.rs',
+   "    dunce::canonicalize(dir).map_err(|e| {", "    std::fs::metadata(dir).map(|_| dir.to_path_buf()).map_err(|e| {", 'C18?'),
 }
 
 def sh(cmd, **kw):
